@@ -666,7 +666,7 @@ def run_programs(ctx, tier, texts_by_value):
           (3, sgl(1234.5678)), (3, sgl(-1234.5678)), (3, sgl(1.5e-5)), (3, sgl(1e20)), (3, sgl(3e9)),
           (3, sgl(0.000123456)), (3, 16777216.0), (3, sgl(3.4e38)), (3, f32(1))]
     picks += ints + fl
-    n_extra = 5 if tier == 'quick' else 100
+    n_extra = 2 if tier == 'quick' else 100
     prng = frng(ctx, 'programs')
     for _ in range(n_extra):
         picks.append((1, prng.randint(-32768, 32767)))
